@@ -433,6 +433,12 @@ class Tools:
                 bad.append(("exit0-image", "%s exits 0 without an output image" % what))
             else:
                 rc2, o2, e2 = self.proc([str(self.rd), "-d", str(out_path)], timeout=TIMEOUT * 6)
+                if rc2 != 0 and b"a line feed cannot be represented in the listing" in e2:
+                    # since /repo 4b35342 `rdsquashfs -d` refuses to *print* a name or target containing a line feed (the
+                    # listing format cannot carry one; C16). That happens after the whole tree was read successfully, so the
+                    # image is readable; the refusal of the listing is not a C07 matter. Counted, not ignored:
+                    self.lf_refusals = getattr(self, "lf_refusals", 0) + 1
+                    rc2, o2, e2 = self.proc([str(self.rd), "-l", "/", str(out_path)], timeout=TIMEOUT * 6)
                 if rc2 != 0:
                     bad.append(("exit0-image", "%s exits 0 but rdsquashfs -d fails (%s): %s" % (what, rc2, e2[-400:].decode(errors="replace"))))
         else:
